@@ -9,6 +9,7 @@ DECIDED = ("R1 no order-exposing use of a RandomState-keyed std collection; R2 e
 NOT_DECIDED = ("determinism of tokio / rand / indexmap / regex internals (trusted); deterministic-but-wrong logic; the trace "
                "equality itself.")
 DECIDED += "; R7 the virtual clock is read only from host code or under an entered runtime (tokio's Instant::now() is the wall clock elsewhere)"
+DECIDED += '; R8 enter-guards restore their thread-locals on every path of drop, and a guard-managed Cell thread-local is written only by the function that builds the guard and by the guard'
 ASSUMPTIONS = ["IndexMap/IndexSet/VecDeque/Vec/BTreeMap iterate in a process-independent order",
                "SmallRng::seed_from_u64/from_seed are pure functions of the seed"]
 
